@@ -24,6 +24,7 @@ def sh(cmd, cwd=wt, timeout=1800, extra=None):
 
 # make sure the worktree holds exactly this seed's change (and its demo)
 # files the patch CREATES are still lying in the worktree (untracked): remove them first, or `git apply` refuses the whole patch
+subprocess.run("git reset -q", shell=True, cwd=wt)     # an intent-to-add entry (git add -N) would bring the created file back, empty
 _patch0 = open(os.path.join(wt, "out", "patch.diff")).read()
 _new = [l.split()[-1][2:] for i, l in enumerate(_patch0.split("\n")) if l.startswith("+++ b/") and "--- /dev/null" in _patch0.split("\n")[i - 1]]
 for f in _new:
